@@ -10,4 +10,5 @@ Tol_center_mpx       == 1000    \* centre finder: |found-true| <= 1 px, in milli
 Tol_voxel_fine       == -1500   \* voxel volume vs analytic at spacing r/20: 3e-2 (measured <= 8e-3)
 Tol_overlap          == -12000  \* largest_overlap vs rsum - sqrt(d2)
 Tol_prior_integral   == -8000   \* quadrature of prob over the support vs 1 (measured <= 1e-10)
+Tol_view_commute     == -12000  \* value at a position: grid vs points/crop/subset (measured 0.0 .. 2e-16)
 =============================================================================
